@@ -7,7 +7,7 @@ cd /repo || exit 2
 git diff --quiet || { echo "REPO DIRTY"; exit 2; }
 git apply $d/patch.diff || { echo "PATCH FAILED"; exit 2; }
 for i in $ids; do
-  out=$(/venv/bin/python /verif/sa/check.py $i --tier quick --no-mutants 2>&1); rc=$?
+  out=$(/venv/bin/python /verif/sa/check.py $i --tier quick --no-mutants --no-evidence 2>&1); rc=$?
   if [ $rc -ne 0 ]; then echo "== $i exit=$rc"; echo "$out" | grep -E "^FINDING|^ANALYSIS-ERROR|Traceback|Error" | head -6; fi
 done
 git checkout -- . ; git status --short | head -3
